@@ -94,6 +94,14 @@ claim("C13",
       "service delegates to the same _read. Equality of delivered trees and the NeXML routes beyond dispatch are not decided.",
       NOTE, "DESIGN.md section 2, C13")
 
+claim("C15",
+      "traversal-schema extraction and sibling comparison of the node/edge stack machines, MRO scan for truthiness hooks, wrapper forwarding check",
+      "Static: the hand-written pre/post-order generators have the textbook schema (LIFO, children reversed, yield before expansion / two-state visited marker) and "
+      "the independent edge generators have the same schema as their node siblings; internal variants compose the same filters; level-order is FIFO; the remaining edge "
+      "iterators are wrappers; Node/Edge define no __bool__/__len__; Tree wrappers forward every parameter; the callback walk is bounded by its start node. "
+      "Exactly-once/visit order for all shapes would need the stack machines executed or modelled and is not decided.",
+      NOTE, "DESIGN.md section 2, C15")
+
 _PENDING = "rule module not yet built in this session (claimed in DESIGN.md; will move to checks when the rule lands)"
 for _p in ["C01","C02","C03","C04","C05","C06","C07","C08","C09","C10","C11","C12","C13","C15","C16","C18","C20"]:
     if _p not in CLAIMED:
